@@ -354,6 +354,10 @@ def known_le(a, b):
     ca, cb = a.t.get((), 0), b.t.get((), 0)
     if ca == cb and ca != 0:
         return known_le(a - ca, b - cb)
+    if cb > ca and (ca != 0 or cb != 0):
+        # a - ca <= b - cb  implies  a <= b  when cb >= ca
+        if known_le(a - ca, b - cb):
+            return True
     # monotone floor division by the same positive constant
     if _is_fn(a, 'floordiv') and _is_fn(b, 'floordiv'):
         xa, da = _args(a)
@@ -438,6 +442,8 @@ def definitely_differ(p, q):
     d = Poly.coerce(p) - Poly.coerce(q)
     if d.is_zero():
         return False
+    if _floordiv_pair_differs(d):
+        return True
     if not EXPAND[0]:
         # default: only differences over free symbols are violations
         return d.all_free()
@@ -449,6 +455,36 @@ def definitely_differ(p, q):
 # (see engine.Analysis.run(opts={'expand': True})) whose entry functions were
 # confirmed by reading to have no hidden ordering precondition.
 EXPAND = [False]
+
+
+def _floordiv_pair_differs(d):
+    """x//c - y//c with x - y a non-zero constant |k| < c and x containing a
+    free symbol with coefficient +-1: differs for a suitable residue."""
+    if len(d.t) != 2:
+        return False
+    items = list(d.t.items())
+    atoms = []
+    for m, c in items:
+        if len(m) != 1 or m[0][1] != 1 or not isinstance(m[0][0], tuple) \
+                or m[0][0][0] != 'floordiv' or abs(c) != 1:
+            return False
+        atoms.append((m[0][0], c))
+    if atoms[0][1] + atoms[1][1] != 0:
+        return False
+    (a1, _), (a2, _) = atoms
+    x, c1 = a1[1], a1[2]
+    y, c2 = a2[1], a2[2]
+    if not (isinstance(c1, Poly) and isinstance(c2, Poly) and c1 == c2):
+        return False
+    cc = c1.as_int()
+    if cc is None or cc < 2:
+        return False
+    k = (x - y).const_value() if (x - y).is_const() else None
+    if k is None or k == 0 or abs(k) >= cc:
+        return False
+    unit = any(len(m) == 1 and m[0][1] == 1 and _is_free(m[0][0]) and
+               abs(c) == 1 for m, c in x.t.items())
+    return unit and x.all_free()
 
 
 def _exists_nonzero(d, budget):
